@@ -716,11 +716,7 @@ Proof.
   { unfold pass, fail. split; [discriminate|]. intros (H & _). exfalso. apply H. unfold PB. lia. }
   destruct ((tb =? 0) || (tb =? U32MAX)) eqn:Etb.
   { unfold pass, fail. split; [discriminate|]. intros (H0 & H1 & H2 & H3 & H4). exfalso.
-    assert (tb = U32MAX) by (unfold PB in *; lia). subst tb.
-    rewrite <- H2 in H1. unfold U32MAX in H1.
-    assert (D : (2 ^ k | 4294967295)) by (apply Z.mod_divide; lia).
-    assert (D2 : (4096 | 2 ^ k)) by (exists (2 ^ (k - 12)); change 4096 with (2 ^ 12); rewrite <- Z.pow_add_r by lia; f_equal; lia).
-    pose proof (Z.divide_trans _ _ _ D2 D) as D3. destruct D3 as [q Hq]. lia. }
+    unfold PB, U32MAX in *. lia. }
   destruct ((tl =? 0) || (tl =? U32MAX)) eqn:Etl.
   { unfold pass, fail. split; [discriminate|]. intros (H0 & H1 & H2 & H3 & H4). exfalso. unfold PB in *. lia. }
   destruct (tb mod 2 ^ k =? 0) eqn:Eal; cbn [negb].
@@ -729,11 +725,244 @@ Proof.
   2:{ unfold pass, fail. split; [discriminate|]. intros (H0 & H1 & H2 & H3 & H4). exfalso. lia. }
   destruct (tl mod 2 ^ k =? 0) eqn:Etlal; cbn [negb].
   2:{ unfold pass, fail. split; [discriminate|]. intros (H0 & H1 & H2 & H3 & H4). exfalso.
-      subst tl. rewrite Z.add_mod, H1, Z.mod_same in Etlal by lia. cbn in Etlal. rewrite Z.mod_0_l in Etlal by lia. lia. }
+      subst tl. replace (PB + 2 ^ k) with (PB + 1 * 2 ^ k) in Etlal by lia. rewrite Z.mod_add in Etlal by lia. lia. }
   rewrite (wrap32_small (tl - 1)) by (unfold W32 in *; lia).
   rewrite land_himask by (unfold W32 in *; lia).
   rewrite (mod_pred_of_multiple tl (2 ^ k)) by lia.
   destruct (tl - 1 - (2 ^ k - 1) =? PB) eqn:Eend; cbn [negb]; unfold pass, fail.
-  - split; [|reflexivity]. intros _. unfold PB in *. repeat split; lia.
+  - split; [|reflexivity]. intros _. apply Z.eqb_eq in Eb. rewrite Eb in Eal. unfold PB in *. repeat split; lia.
   - split; [discriminate|]. intros (H0 & H1 & H2 & H3 & H4). lia.
+Qed.
+
+(** * 3. Attribute and capability checks *)
+
+(** what [checkTPM2NVAttr] is meant to decide: the attribute word equals the
+    wanted one up to the optional bits *)
+Definition nvattr_spec (mask want opt : Z) : Prop := Z.lor mask opt = Z.lor want opt.
+
+(** what it decides *)
+Theorem NVAttr_real : forall mask want opt,
+  nvattr mask want opt = true <-> mask <> 0 \/ Z.odd (Z.lor want opt) = false.
+Proof.
+  intros mask want opt. unfold nvattr. destruct (mask =? 0) eqn:E.
+  - change 1 with (Z.ones 1). rewrite Z.land_comm, Z.land_ones by lia.
+    change (2 ^ 1) with 2. rewrite Zmod_odd.
+    destruct (Z.odd (Z.lor want opt)); cbn; split; intros; try lia.
+  - rewrite Z.land_0_l. cbn. split; intros; [left; lia|reflexivity].
+Qed.
+
+Theorem NVAttr_exact_refuted :
+  (exists mask want opt, 0 <= mask /\ nvattr mask want opt = true /\ ~ nvattr_spec mask want opt) /\
+  (exists mask want opt, 0 <= mask /\ nvattr mask want opt = false /\ nvattr_spec mask want opt).
+Proof.
+  split.
+  - exists 1, PS20_ATTR, ATTR_WRITTEN. split; [lia|]. split; [reflexivity|]. unfold nvattr_spec. vm_compute. discriminate.
+  - exists 0, 0, 1. split; [lia|]. split; reflexivity.
+Qed.
+
+(** TPM 2.0 digest sizes by TPM_ALG_ID (TCG algorithm registry): SHA1, SHA256,
+    SHA384, SHA512, SM3-256 *)
+Definition tpm_digest (alg : Z) : option Z :=
+  if alg =? 4 then Some 20 else if alg =? 11 then Some 32 else if alg =? 12 then Some 48
+  else if alg =? 13 then Some 64 else if alg =? 18 then Some 32 else None.
+
+(** Table J-2 as the code cites it: required attributes up to Written, data
+    size = base + digest size of the name algorithm (AUX: base + 2 digests) *)
+Definition nv20_spec (which namealg attrs ds : Z) : Prop :=
+  nvattr_spec attrs (idx_want which) ATTR_WRITTEN /\
+  exists d, tpm_digest namealg = Some d /\
+    ds = (if which =? 1 then 2 * d + 40 else d + 38).
+
+Theorem NVIndex20_real : forall which blob, which = 0 \/ which = 1 ->
+  (nv_index_config20 which blob = pass <->
+   exists namealg attrs h ds hsz, parse_nvpub blob = Some (namealg, attrs, h, ds) /\
+     nvattr attrs (idx_want which) ATTR_WRITTEN = true /\
+     go_hash_size' namealg = Some hsz /\ ds = idx_size which hsz).
+Proof.
+  intros which blob Hw. unfold nv_index_config20.
+  destruct (parse_nvpub blob) as [[[[namealg attrs] h] ds]|].
+  - destruct (nvattr attrs (idx_want which) ATTR_WRITTEN) eqn:Ea; cbn [negb].
+    + destruct (go_hash_size' namealg) as [hsz|] eqn:Eh.
+      * destruct (ds =? idx_size which hsz) eqn:Ed; cbn [negb].
+        -- replace (which =? 2) with false by lia. split; [|reflexivity]. intros _.
+           exists namealg, attrs, h, ds, hsz. repeat split; try assumption; lia.
+        -- unfold pass, fail. split; [discriminate|].
+           intros (a & b & c & d & e & [= <- <- <- <-] & _ & [= <-] & Hd). lia.
+      * unfold pass. split; [discriminate|].
+        intros (a & b & c & d & e & [= <- <- <- <-] & _ & Hh & _). discriminate Hh.
+    + unfold pass, fail. split; [discriminate|].
+      intros (a & b & c & d & e & [= <- <- <- <-] & Hx & _). discriminate Hx.
+  - unfold pass, ierr. split; [discriminate|]. intros (a & b & c & d & e & Hx & _). discriminate Hx.
+Qed.
+
+(** a correctly configured PS / AUX index with a SHA-2 name algorithm IS accepted *)
+Theorem NVIndex20_accepts_partial : forall which blob namealg attrs h ds,
+  which = 0 \/ which = 1 ->
+  parse_nvpub blob = Some (namealg, attrs, h, ds) ->
+  namealg = 11 \/ namealg = 12 \/ namealg = 13 ->        (* not SHA1, not SM3 *)
+  0 <= attrs -> nv20_spec which namealg attrs ds ->
+  nv_index_config20 which blob = pass.
+Proof.
+  intros which blob namealg attrs h ds Hw Hp Ha Hat (Hattr & d & Hd & Hds).
+  apply NVIndex20_real; [assumption|].
+  assert (Hne : attrs <> 0).
+  { intros ->. unfold nvattr_spec in Hattr. destruct Hw as [-> | ->]; vm_compute in Hattr; discriminate. }
+  assert (Hnv : nvattr attrs (idx_want which) ATTR_WRITTEN = true) by (apply NVAttr_real; left; assumption).
+  destruct Ha as [-> | [-> | ->]]; vm_compute in Hd; injection Hd as <-;
+    destruct Hw as [-> | ->]; cbn in Hds; subst ds.
+  - exists 11, attrs, h, 70, 32. repeat split; assumption || reflexivity.
+  - exists 11, attrs, h, 104, 32. repeat split; assumption || reflexivity.
+  - exists 12, attrs, h, 86, 48. repeat split; assumption || reflexivity.
+  - exists 12, attrs, h, 136, 48. repeat split; assumption || reflexivity.
+  - exists 13, attrs, h, 102, 64. repeat split; assumption || reflexivity.
+  - exists 13, attrs, h, 168, 64. repeat split; assumption || reflexivity.
+Qed.
+
+(** a PS index: index 0x01C10103, SHA256, the given attributes, 32-byte policy, data size 70 *)
+Definition ps_blob (attrs : list Z) (namealg ds : Z) : list Z :=
+  [1; 193; 1; 3; 0; namealg] ++ attrs ++ [0; 32] ++ repeat 0 32 ++ [0; ds].
+
+Theorem NVIndex20_refuted :
+  (* attributes that differ from the required ones (only PPWRITE set) are accepted *)
+  (exists blob namealg attrs h ds, parse_nvpub blob = Some (namealg, attrs, h, ds) /\
+     nv_index_config20 0 blob = pass /\ ~ nv20_spec 0 namealg attrs ds) /\
+  (* a correct SHA1 index is rejected, one sized for SHA-224 is accepted *)
+  (exists blob namealg attrs h ds, parse_nvpub blob = Some (namealg, attrs, h, ds) /\
+     nv20_spec 0 namealg attrs ds /\ nv_index_config20 0 blob = fail) /\
+  (* name algorithm 0x27 (SHA3-256): no verdict *)
+  (exists blob, nv_index_config20 0 blob = VPanic).
+Proof.
+  split; [|split].
+  - exists (ps_blob [0; 0; 0; 1] 11 70), 11, 1, (repeat 0 32), 70.
+    split; [vm_compute; reflexivity|]. split; [vm_compute; reflexivity|].
+    intros (H & _). unfold nvattr_spec in H. vm_compute in H. discriminate.
+  - exists (ps_blob [98; 4; 4; 8] 4 58), 4, PS20_ATTR, (repeat 0 32), 58.
+    split; [vm_compute; reflexivity|]. split; [|vm_compute; reflexivity].
+    split; [reflexivity|]. exists 20. split; reflexivity.
+  - exists (ps_blob [98; 4; 4; 8] 39 70). vm_compute. reflexivity.
+Qed.
+
+(** POIndexConfig never accepts anything (falls out of the switch) *)
+Theorem POIndexConfig_never_passes_refuted :
+  (forall blob, nv_index_config20 2 blob <> pass) /\
+  (forall p1 p2 size attrs rst wst wd, nv_index_config12 2 p1 p2 size attrs rst wst wd <> pass) /\
+  (exists blob namealg attrs h ds, parse_nvpub blob = Some (namealg, attrs, h, ds) /\
+     nv20_spec 2 namealg attrs ds).
+Proof.
+  split; [|split].
+  - intros blob. unfold nv_index_config20.
+    destruct (parse_nvpub blob) as [[[[namealg attrs] h] ds]|]; [|unfold ierr, pass; discriminate].
+    destruct (negb (nvattr attrs (idx_want 2) ATTR_WRITTEN)); [unfold fail, pass; discriminate|].
+    destruct (go_hash_size' namealg); [|discriminate].
+    destruct (negb (ds =? idx_size 2 z)); unfold fail, pass; cbn; discriminate.
+  - intros. cbn. unfold fail, pass. discriminate.
+  - exists (ps_blob [2; 4; 0; 10] 11 70), 11, PO20_ATTR, (repeat 0 32), 70.
+    split; [vm_compute; reflexivity|]. split; [reflexivity|]. exists 32. split; reflexivity.
+Qed.
+
+(** TPM 1.2 (Table J-1): exact *)
+Theorem NVIndex12_exact : forall which p1 p2 size attrs rst wst wd,
+  (nv_index_config12 0 p1 p2 size attrs rst wst wd = pass <->
+     p1 = 0 /\ p2 = 0 /\ size = 54 /\ attrs = NVPER_WRITESTCLEAR /\ rst = false /\ wst = false /\ wd = true) /\
+  (nv_index_config12 1 p1 p2 size attrs rst wst wd = pass <->
+     p1 = 0 /\ p2 = 0 /\ size = 64 /\ attrs = 0 /\ rst = false /\ wst = false /\ wd = false) /\
+  (nv_index_config12 which p1 p2 size attrs rst wst wd = warn ->
+     (which = 0 \/ which = 1) /\ p1 = 0 /\ p2 = 0 /\ rst = false /\ wst = false).
+Proof.
+  intros. unfold nv_index_config12, pass, fail, warn, NVPER_WRITESTCLEAR.
+  split; [|split].
+  - cbn [Z.eqb]. destruct rst, wst, wd; cbn [negb]; brk; split; intros; try discriminate; try reflexivity; lia.
+  - cbn [Z.eqb]. destruct rst, wst, wd; cbn [negb]; brk; split; intros; try discriminate; try reflexivity; lia.
+  - destruct rst, wst, wd; cbn [negb]; brk; intros; try discriminate; lia.
+Qed.
+
+Lemma zlist_eqb_true a : forall b, zlist_eqb a b = true <-> a = b.
+Proof.
+  induction a as [|x a IH]; intros [|y b]; cbn [zlist_eqb]; split; intros H; try reflexivity; try discriminate.
+  - apply andb_prop in H. destruct H as [H1 H2]. apply Z.eqb_eq in H1. apply IH in H2. congruence.
+  - injection H as -> ->. rewrite Z.eqb_refl. cbn. apply IH. reflexivity.
+Qed.
+
+Theorem AUXIndexHash_exact : forall blob,
+  aux_index_hash blob = pass <->
+  exists namealg attrs ds, parse_nvpub blob = Some (namealg, attrs, AUX_HASH, ds).
+Proof.
+  intros blob. unfold aux_index_hash.
+  destruct (parse_nvpub blob) as [[[[namealg attrs] h] ds]|].
+  - destruct (zlist_eqb h AUX_HASH) eqn:E.
+    + apply zlist_eqb_true in E. subst h. split; [|reflexivity]. intros _. exists namealg, attrs, ds. reflexivity.
+    + unfold pass, fail. split; [discriminate|]. intros (a & b & d & [= <- <- Hh <-]).
+      subst h. rewrite (proj2 (zlist_eqb_true AUX_HASH AUX_HASH) eq_refl) in E. discriminate.
+  - unfold pass, ierr. split; [discriminate|]. intros (a & b & d & H). discriminate H.
+Qed.
+
+(** LCP validity *)
+Theorem LCP1_exact : forall version hashalg ptype sinitmin polctrl maxsinit hashzero,
+  lcp_valid1 version hashalg ptype sinitmin polctrl maxsinit hashzero = pass <->
+  version < LCP_V2 /\ hashalg = 0 /\ (ptype = 0 \/ ptype = 1) /\ sinitmin <> 0 /\
+  ~ (ptype = 0 /\ polctrl = 0) /\ maxsinit = 0 /\ hashzero = false.
+Proof.
+  intros. unfold lcp_valid1, pass, fail, LCP_V2.
+  destruct hashzero; brk; split; intros; try discriminate; try reflexivity; lia.
+Qed.
+
+(** the specified LCP_POLICY2 pattern: PolicyType LIST (0) or ANY (1) *)
+Definition lcp2_spec (preset version hashalg ptype hmask smask : Z) : Prop :=
+  LCP_V3 <= version /\ hashalg = preset /\ (ptype = 0 \/ ptype = 1) /\ hmask <> 0 /\ smask <> 0.
+
+Theorem LCP2_real : forall preset version hashalg ptype hmask smask,
+  (lcp_valid2 preset version hashalg ptype hmask smask = pass <->
+   lcp2_spec preset version hashalg ptype hmask smask /\ ptype = 1) /\
+  (lcp_valid2 preset version hashalg ptype hmask smask = VPanic <->
+   LCP_V3 <= version /\ hashalg = preset /\ ptype <> 1).
+Proof.
+  intros. unfold lcp_valid2, lcp2_spec, pass, fail, LCP_V3.
+  split; brk; split; intros; try discriminate; try reflexivity; lia.
+Qed.
+
+Theorem LCP2_list_refuted :
+  exists preset version hashalg ptype hmask smask,
+    lcp2_spec preset version hashalg ptype hmask smask /\
+    lcp_valid2 preset version hashalg ptype hmask smask = VPanic.
+Proof.
+  exists 11, 768, 11, 0, 8, 8. split; [unfold lcp2_spec, LCP_V3; lia|reflexivity].
+Qed.
+
+(** SINIT ACM / TPM family *)
+Definition sinit_spec (caps tpm : Z) (present : bool) : Prop :=
+  present = true /\ ((tpm = 1 /\ Z.land caps FAM_DTPM12 <> 0) \/ (tpm = 2 /\ Z.land caps FAM_DTPM20 <> 0)).
+
+Theorem SINITTPMSpec_real : forall caps1 caps2 tpm present,
+  sinit_tpm_spec caps1 caps2 tpm present = pass <->
+  exists c, caps2 = Some c /\ c <> 0 /\ present = true /\ (tpm = 1 \/ tpm = 2).
+Proof.
+  intros caps1 [c|] tpm present; unfold sinit_tpm_spec.
+  - destruct (c =? 0) eqn:Ec.
+    + change (Z.land 1 (Z.lor FAM_DTPM12 FAM_BOTH) =? 0) with false.
+      change (Z.land 1 (Z.lor FAM_DTPM20 FAM_BOTH) =? 0) with false. cbn [andb].
+      unfold pass, fail. split; [discriminate|]. intros (x & [= <-] & H & _). lia.
+    + rewrite !Z.land_0_l. cbn [Z.eqb andb].
+      destruct present; rewrite ?Bool.andb_true_r, ?Bool.andb_false_r.
+      * destruct (tpm =? 1) eqn:E1; [|destruct (tpm =? 2) eqn:E2].
+        -- split; [|reflexivity]. intros _. exists c. repeat split; lia.
+        -- split; [|reflexivity]. intros _. exists c. repeat split; lia.
+        -- unfold pass, fail. split; [discriminate|]. intros (x & _ & _ & _ & H). lia.
+      * unfold pass, fail. split; [discriminate|]. intros (x & _ & _ & H & _). discriminate H.
+  - unfold pass, fail. split; [discriminate|]. intros (x & H & _). discriminate H.
+Qed.
+
+Theorem SINITTPMSpec_refuted :
+  (* the real layout (nothing parseable behind the ACM): a supporting ACM is rejected *)
+  (forall caps tpm present, sinit_tpm_spec caps None tpm present = fail) /\
+  (exists caps tpm, sinit_spec caps tpm true) /\
+  (* the capability test accepts an ACM that lists only the other family ... *)
+  (exists caps tpm, sinit_tpm_spec caps (Some caps) tpm true = pass /\ ~ sinit_spec caps tpm true) /\
+  (* ... and judges the module behind the SINIT ACM, not the SINIT ACM *)
+  (exists caps1 caps2 tpm, sinit_spec caps1 tpm true /\ sinit_tpm_spec caps1 (Some caps2) tpm true = fail).
+Proof.
+  split; [|split; [|split]].
+  - reflexivity.
+  - exists 17, 2. split; [reflexivity|]. right. split; [reflexivity|]. vm_compute. discriminate.
+  - exists 16, 1. split; [reflexivity|]. intros (_ & [(_ & H)|(H & _)]); [apply H; reflexivity|discriminate].
+  - exists 17, 0, 2. split; [|reflexivity]. split; [reflexivity|]. right. split; [reflexivity|]. vm_compute. discriminate.
 Qed.
